@@ -414,8 +414,8 @@ MUTANTS = [
          rules=["e.construction"]),
     dict(id="rshift-renames-source", module=_T, old="					col = values.copy()  # Copy to prevent aliasing", new="					col = values",
          rules=["e.construction"]),
-    dict(id="sort-by-drops-names", module=_T, old="			new_cols.append(Vector(new_data, name=col._name))\n\n		return Table(new_cols)",
-         new="			new_cols.append(Vector(new_data))\n\n		return Table(new_cols)", rules=["h.table-selections"]),
+    dict(id="sort-by-drops-names", module=_T, old="			new_cols.append(Vector(new_data, dtype=col._dtype, name=col._name))\n\n		return Table(new_cols)",
+         new="			new_cols.append(Vector(new_data, dtype=col._dtype))\n\n		return Table(new_cols)", rules=["h.table-selections"]),
     dict(id="cast-drops-name", module=_V, old="		return Vector(tuple(out), dtype=new_dtype, name=self._name, as_row=self._display_as_row)",
          new="		return Vector(tuple(out), dtype=new_dtype, as_row=self._display_as_row)", rules=["b.structure-keeps"]),
     dict(id="table-scalar-names-shifted", module=_T, old="				result_col._name = orig_col._name\n				result_col._wild = orig_col._wild",
